@@ -14,6 +14,36 @@ import os
 from . import common, engine, families as fm, impl, observe, restext, solverplay, tlc
 
 
+DECOY = """3 3 2
+1: (1 2) 3
+2: 2 1
+3: 3 (1 2)
+1: 0: 1: 1
+2: 0: 2: 1
+3: 1: 1: 2
+1: 0: 1: 2: 2 (1 3)
+2: 0: 1: 2: (3 1)
+"""
+DECOY_OPTS = (['-twopl', '-stab', '-maxsize', '1', '-lsb', '2'], ['-pc', '-gen', '1', '-mincost', '2', '1', '1'], ['-bf'])
+
+
+def bystander(h):
+    """Another Solver object of the same process, on a different instance and option set (MC_Hist: CallOther)."""
+    dpath = impl.write_text(DECOY, name='decoy-%d.txt' % os.getpid())
+    st, D = impl.construct_solver(['-f', dpath, '-na', '3'] + DECOY_OPTS[h % 3])
+    return D if st == 'ok' else None
+
+
+def call_other(D, h, n):
+    r = observe.Recorder(mode='standin', seed=h + 13 * n, keep_sets=False)
+    with observe.observing(r, D):
+        with impl.quiet():
+            D.solve()
+    D.get_results()
+    D.get_results_long()
+    D.get_debug()
+
+
 def replay_hist(tag, rec):
     impl.ensure_repo()
     cl = solverplay.Clauses(rec)
@@ -23,12 +53,14 @@ def replay_hist(tag, rec):
     path = impl.write_text(o['text'])
     h = int(hashlib.sha1(cl.key.encode()).hexdigest()[:6], 16)
     use_cbc = (h % 8 == 0) and not o.get('bf')
-    info = {'hash': rec.get('_h'), 'nsolve': calls.count('solve'), 'cbc': use_cbc,
+    info = {'hash': rec.get('_h'), 'nsolve': calls.count('solve'), 'cbc': use_cbc, 'others': calls.count('other'),
             'sample': {'argv': solverplay.argv_of(o, '<file>')[2:], 'calls': calls, 'spec_status': rec['status'], 'spec_vals': rec['vals']}}
     try:
+        D = bystander(h) if 'other' in calls else None
         st, S = impl.construct_solver(solverplay.argv_of(o, path))
         if not cl.add('C18', 'construct', st == 'ok', '%s %s' % (st, S)):
             return cl.out, info
+        nother = 0
         fin = solverplay.mset(rec['Ffin'])
         last_text = {}
         solves = []       # (status, values)
@@ -58,6 +90,15 @@ def replay_hist(tag, rec):
                     cl.add('C18', 'status_equals_spec', S.model.pulp_status == rec['status'], 'status %s, spec %s' % (S.model.pulp_status, rec['status']))
                     if rec['crits'] and rec['status'] == 'Optimal' and not use_cbc:
                         cl.add('C18', 'values_equal_spec', [v for v in vals] == rec['vals'], 'values %s, spec %s' % (vals, rec['vals']))
+                continue
+            if c == 'other':
+                # a solve and every getter of ANOTHER object: must leave this object's texts alone (judged by the clauses below)
+                nother += 1
+                if D is not None:
+                    try:
+                        call_other(D, h, nother)
+                    except BaseException as e:  # noqa
+                        cl.add('X', 'bystander_runs', False, 'the other object raised %s: %s' % (type(e).__name__, e))
                 continue
             fn = {'results': S.get_results, 'short': S.get_results_short, 'long': S.get_results_long, 'debug': S.get_debug}[c]
             try:
@@ -155,6 +196,7 @@ def main(tier, seed):
             rep.distinct.add(info['hash'])
         rep.sample(info['sample'])
         rep.cov['real_cbc_histories'] = rep.cov.get('real_cbc_histories', 0) + (1 if info['cbc'] else 0)
+        rep.cov['histories_with_calls_on_another_object'] = rep.cov.get('histories_with_calls_on_another_object', 0) + (1 if info['others'] else 0)
 
     def flt(tag, rec):
         hh = hashlib.sha1(repr((sorted(rec['o'].items(), key=str), rec['calls'])).encode()).hexdigest()[:16]
@@ -165,7 +207,7 @@ def main(tier, seed):
         return True
     try:
         for i, (label, consts, maxcalls, sim) in enumerate(runs):
-            consts = dict(consts, MaxCalls=maxcalls)
+            consts = dict(consts, MaxCalls=maxcalls, Others=True)
             res = engine.tlc_replay(rep, pool, 'MC_Hist', replay_hist, consts=consts, spec='HSpec',
                                     invariants=['ResolveSameValues', 'ExportHist'], properties=['GettersReadOnly'],
                                     label=label, on_result=on_result, export_filter=flt, timeout=3000,
